@@ -100,6 +100,20 @@ func runServerScripts(scripts []map[string]interface{}, race bool) ([]map[string
 	return res, nil
 }
 
+// canonListing renders a listing independently of the order the repository's map yields the files in
+func canonListing(body []byte) string {
+	var files []json.RawMessage
+	if err := json.Unmarshal(body, &files); err != nil {
+		return "undecodable:" + string(body)
+	}
+	items := make([]string, len(files))
+	for i, f := range files {
+		items[i] = string(f)
+	}
+	sort.Strings(items)
+	return strings.Join(items, "\n")
+}
+
 var markerRe = regexp.MustCompile(`\{[0-9]{4}\}`)
 
 func tail(s string, n int) string {
@@ -167,6 +181,10 @@ func init() {
 			delete(m4.Tags, "SenderSupplied")
 			m4.Opts = &wire.ValidateOpts{AllowMissingSenderSupplied: true}
 			pool = append(pool, m4)
+			// characters that mean something to formatting or templating layers but are plain FAIM text
+			m5 := samples[n].Clone()
+			m5.setElem("SenderDepositoryInstitution", "SenderShortName", "5%d off %s 100%")
+			pool = append(pool, m5)
 		}
 		_ = bases
 		var tnames []string
@@ -292,6 +310,43 @@ func init() {
 				scripts = append(scripts, map[string]interface{}{"mode": "seq", "ops": ops})
 			}
 		}
+		// fail closed: a stored file with options of its own, then requests that are refused (an invalid message
+		// carrying other options, an invalid replacement, malformed JSON) - the listing before and after is the same
+		nFixedFailClosed := 0
+		if len(snames) > 0 {
+			good := samples[snames[0]]
+			for _, q := range []string{"skipMandatoryIMAD=true", "allowMissingSenderSupplied=true", ""} {
+				for _, badOpts := range []*wire.ValidateOpts{nil, {SkipMandatoryIMAD: true}, {AllowMissingSenderSupplied: true}, {SkipMandatoryIMAD: true, AllowMissingSenderSupplied: true}} {
+					bad := good.Clone()
+					delete(bad.Tags, "Amount")
+					bad.Opts = badOpts
+					txt := texts[tnames[0]]
+					sk, al := "~", "~"
+					if strings.HasPrefix(q, "skip") {
+						sk = "true"
+					}
+					if strings.HasPrefix(q, "allow") {
+						al = "true"
+					}
+					ma := append([]string{"a", "$0"}, bad.Args()...)
+					ma = append(ma, ";")
+					mc := append([]string{"cj", "$0"}, bad.Args()...)
+					mc = append(mc, ";")
+					ops := []httpOp{
+						{Op: "create", CT: "text/plain", Query: q, Body: hex.EncodeToString([]byte(txt)), margs: []string{"ct", sk, al, txt}},
+						{Op: "list", margs: []string{"l"}},
+						{Op: "add", ID: "$0", CT: "application/json", Body: hex.EncodeToString([]byte(msgJSON(bad))), margs: ma},
+						{Op: "list", margs: []string{"l"}},
+						{Op: "create", CT: "application/json; charset=utf-8", Body: hex.EncodeToString([]byte("{not json")), margs: []string{"cx"}},
+						{Op: "get", ID: "$0", margs: []string{"g", "$0"}},
+						{Op: "list", margs: []string{"l"}},
+					}
+					allOps = append(allOps, ops)
+					scripts = append(scripts, map[string]interface{}{"mode": "seq", "ops": ops})
+					nFixedFailClosed++
+				}
+			}
+		}
 		results, err := runServerScripts(scripts, false)
 		if err != nil {
 			o.Case("http:harness", "failed:"+strings.ReplaceAll(tail(err.Error(), 400), "\t", " "), "seq")
@@ -326,6 +381,8 @@ func init() {
 			optionsAgree := "same" // C12: the query parameters select the same options as the library routes
 			noTruncation := "same" // C08: every marked segment of an accepted text upload is in the stored message
 			ownParams := "same"    // C18: a rendering depends on its own request's parameters only
+			failClosed := "same"   // C18: a refused request changes nothing: listings around it are identical
+			lastList, refusedSince, changedSince := "", -1, true
 			for i, op := range ops {
 				margs = append(margs, op.margs...)
 				r := rs[i]
@@ -374,6 +431,17 @@ func init() {
 							}
 						}
 					}
+				}
+				switch {
+				case op.Op == "list" && r.Status == 200:
+					if !changedSince && refusedSince >= 0 && lastList != canonListing(body) && failClosed == "same" {
+						failClosed = fmt.Sprintf("differ:request %d (%s) was refused, yet the listing after it differs from the listing before it", refusedSince, ops[refusedSince].Op)
+					}
+					lastList, refusedSince, changedSince = canonListing(body), -1, false
+				case (op.Op == "create" || op.Op == "add" || op.Op == "delete") && (r.Status == 200 || r.Status == 201):
+					changedSince = true
+				case r.Status >= 400 && (op.Op == "create" || op.Op == "add"):
+					refusedSince = i
 				}
 				d := libraryVerdict(lib, op, r, body, created[:min(seenCreate, len(created))])
 				if d != "" && op.Op == "create" && !strings.Contains(op.CT, "json") && r.Status == 201 && noTruncation == "same" {
@@ -436,6 +504,7 @@ func init() {
 			o.Case("prop:http-options-agree", optionsAgree, margs...)
 			o.Case("prop:http-no-truncation", noTruncation, fmt.Sprint(h))
 			o.Case("prop:http-contents-own-params", ownParams, fmt.Sprint(h))
+			o.Case("prop:http-fail-closed", failClosed, fmt.Sprint(h))
 			o.Case("prop:http-status-documented", "same", fmt.Sprint(h))
 			o.Case("prop:http-log-isolation", "same", fmt.Sprint(h))
 			o.Case("prop:http-error-body-json", "same", fmt.Sprint(h))
